@@ -170,6 +170,26 @@ def run_case(case, model):
         if (rhd, rmsg) != (hd, msg):
             hits.append(hit('c20.reparse-not-fixed-point', 're-parsing the flattened output is not a fixed point',
                             observed=[rhd.hex(), rmsg.hex()], expected=[hd.hex(), msg.hex()]))
+        # ---- envelopes are independent: changing the headers of one envelope (as the header policies do), of its copy or of its
+        # pickled twin must not show in another envelope parsed from the same bytes, before or afterwards
+        try:
+            twin = Envelope('s2@x', ['r2@y'])
+            twin.parse(data)
+            for victim in (env, c, p):
+                victim.prepend_header('X-Verif-Probe', 'added later')
+                if 'Subject' in victim.headers:
+                    victim.headers.replace_header('Subject', 'changed')
+                else:
+                    victim.headers['Subject'] = 'changed'
+            later = Envelope('s3@x', ['r3@y'])
+            later.parse(data)
+            for name, e in (('an envelope parsed earlier from the same bytes', twin), ('an envelope parsed afterwards from the same bytes', later)):
+                if e.flatten() != (hd, msg):
+                    hits.append(hit('c20.envelopes-share-headers', 'changing the headers of one envelope changed ' + name,
+                                    observed=e.flatten()[0][:200].hex(), expected=hd[:200].hex()))
+                    break
+        except Exception as e:
+            hits.append(hit('c20.wf-raises.' + type(e).__name__, 'header modification / second parse raised on a well-formed message', observed=repr(e)))
         tags.append('eol=' + ('crlf' if b'\r\n' in h and b'\n' not in h.replace(b'\r\n', b'') else 'lf' if b'\r\n' not in h else 'mixed'))
         tags.append('fields=%d' % len(case['fields']))
         if any(len(f[1]) > 1 for f in case['fields']):
